@@ -1,6 +1,7 @@
 package engines
 
 import (
+	"encoding/base64"
 	"fmt"
 	"strings"
 	"unicode/utf8"
@@ -380,6 +381,34 @@ func genParseChunk(g *h.Gen) {
 				c := g.R.Range(1, len(b)-1)
 				g.Emit("parsechunk xterm-256color%s utf8 80 24 %s %s", vs, hexFeed(b[:c], false), hexFeed(b[c:], true))
 			}
+		}
+	}
+	// long OSC 52 replies (a selection of a few hundred bytes is ordinary): payload lengths around powers of two, delivered
+	// in 128-byte reads as inputLoop does, in reads of other sizes, and with a single split — "any partition … yields the
+	// same events" has no length bound
+	for _, n := range []int{3, 48, 93, 96, 189, 192, 195, 381, 384, 768, 1536, 3072} {
+		raw := make([]byte, n)
+		for i := range raw {
+			raw[i] = byte('a' + (i*7+n)%26)
+		}
+		for ti, term := range []string{"\a", "\x1b\\"} {
+			b := []byte("\x1b]52;c;" + base64.StdEncoding.EncodeToString(raw) + term + "x")
+			for _, sz := range []int{128, 64, 100, 1000} {
+				if sz >= len(b) || (ti == 1 && sz != 128) {
+					continue
+				}
+				var fs []string
+				for o := 0; o < len(b); o += sz {
+					e := o + sz
+					if e > len(b) {
+						e = len(b)
+					}
+					fs = append(fs, hexFeed(b[o:e], false))
+				}
+				g.Emit("parsechunk xterm-256color%s utf8 80 24 %s", vs, strings.Join(fs, " "))
+			}
+			c := g.R.Range(1, len(b)-1)
+			g.Emit("parsechunk alacritty%s utf8 80 24 %s %s", vs, hexFeed(b[:c], false), hexFeed(b[c:], true))
 		}
 	}
 	g.Emit("parsechunk rxvt%s utf8 80 24 1b5b4f61:0", vs)
